@@ -49,7 +49,7 @@ def _plan(kind, d, echo=True):
     return {"status": 200, "reason": "Connection established", "headers": [], "leading": leading(d), "echo": echo}
 
 
-def run_handover(kind, d, cuts, script, sync, seg=None):
+def run_handover(kind, d, cuts, script, sync, seg=None, read_body_first=False):
     """script: list of ["read", m] / ["write", bytes]. Returns (world, result dict)."""
     cfg = NetConfig(default_plan=_plan(kind, d), plans={"n1": {}})
     world = World(peer_factory=cfg.peer_factory, cuts={0: cuts} if cuts else None, seg=seg)
@@ -64,6 +64,8 @@ def run_handover(kind, d, cuts, script, sync, seg=None):
         try:
             with pool.stream(sp["method"], sp["url"], headers=sp["headers"], extensions=dict(sp["ext"])) as resp:
                 res["status"] = resp.status
+                if read_body_first:
+                    res["body_first"] = resp.read()  # the (empty) body of the 101 / 2xx response, read before the stream is used
                 ns = resp.extensions["network_stream"]
                 got = 0
                 written = []
@@ -97,6 +99,8 @@ def run_handover(kind, d, cuts, script, sync, seg=None):
             try:
                 async with pool.stream(sp["method"], sp["url"], headers=sp["headers"], extensions=dict(sp["ext"])) as resp:
                     res["status"] = resp.status
+                    if read_body_first:
+                        res["body_first"] = await resp.aread()
                     ns = resp.extensions["network_stream"]
                     got = 0
                     written = []
@@ -213,7 +217,7 @@ def execute_enum(case) -> Outcome:
     for seq in MB_SEQS:
         script = [["read", m] for m in seq]
         for sync in ((True, False) if (mask % 8 == 0) else (True,)):
-            world, res = run_handover(kind, d, positions, script, sync)
+            world, res = run_handover(kind, d, positions, script, sync, read_body_first=(mask % 4 == 1))
             runs += 1
             vio += judge(kind, d, positions, script, sync, world, res, "enumerated")
             if vio:
@@ -241,7 +245,9 @@ def random_cases(draw):
     fr = draw(st.lists(st.floats(0, 1, allow_nan=False, width=32), max_size=5))
     near = draw(st.lists(st.integers(-3, 6), max_size=3))
     seg = draw(st.sampled_from([None, None, [1], [2, 3], [5, 1, 70000]]))
-    return {"kind": kind, "d": d, "script": script, "cut_fracs": fr, "near_head": near, "seg": seg, "sync": draw(st.booleans())}
+    return {"kind": kind, "d": d, "script": script, "cut_fracs": fr, "near_head": near, "seg": seg, "sync": draw(st.booleans()),
+            # a caller that reads the (empty) body of the 101 / 2xx response before it uses the stream
+            "read_body_first": draw(st.sampled_from([False, False, True]))}
 
 
 def execute_random(case) -> Outcome:
@@ -257,7 +263,7 @@ def execute_random(case) -> Outcome:
     script = case["script"]
     if d > 20000:
         script = [o if o[0] == "write" or o[1] >= 8 else ["read", o[1] * 512] for o in script]
-    world, res = run_handover(kind, d, cuts, script, case["sync"], seg=seg)
+    world, res = run_handover(kind, d, cuts, script, case["sync"], seg=seg, read_body_first=bool(case.get("read_body_first")))
     vio = judge(kind, d, cuts, script, case["sync"], world, res, "random")
     reads = [o[1] for o in case["script"] if o[0] == "read"]
     first_read_len = None
